@@ -50,9 +50,52 @@ PROCESS_EVENTS = ("os.system", "os.exec", "os.posix_spawn", "os.spawn", "os.fork
                   "subprocess.Popen", "os.startfile", "os.chroot")
 WRITE_FLAGS = os.O_WRONLY | os.O_RDWR | os.O_CREAT | os.O_TRUNC | os.O_APPEND
 
-LOG = []  # ["L", line] | ["E", event, [abs paths], [raw args], blocked] | ["F", type, text, tb] | ["I", module]
+LOG = []  # ["L", conn id, line] | ["E", event, [abs paths], [raw args], blocked or "fault:<errno>"] |
+#           ["S", function, abs path] (stat-style probe) | ["F", type, text, tb] | ["I", module]
 ARMED = [False]
 TOP = [None]
+FAULT = [0, 0, False, ""]  # [countdown, errno, armed for the next command, only calls whose name contains this]: the countdown-th next filesystem call under the scratch top fails with errno
+PROBES = ("stat", "lstat", "access", "readlink")  # no audit event exists for these: recording wrappers
+
+
+def _inject(name):
+    """Fault injection (XFAULT k errno [call]): make the k-th next (matching) filesystem call fail like the OS would."""
+    if FAULT[0] > 0 and FAULT[3] in name:
+        FAULT[0] -= 1
+        if FAULT[0] == 0:
+            return FAULT[1]
+    return 0
+
+
+def install_probe_wrappers():
+    """os.stat / os.lstat / os.access / os.readlink (hence os.path.exists/isdir/isfile/islink/getsize
+    and FilePath.restat, which are bound after this runs) have no audit event; record them."""
+    import errno as _errno
+
+    def wrap(name):
+        orig = getattr(os, name)
+
+        def probe(path, *a, **k):
+            if ARMED[0] and isinstance(path, (str, bytes)) and k.get("dir_fd") is None:
+                try:
+                    p = os.path.abspath(os.fsdecode(path))
+                except Exception:
+                    p = repr(path)
+                top = TOP[0]
+                if p == top or p.startswith(top + os.sep) or not p.endswith((".py", ".pyc", ".so", ".pyi", ".pth")):
+                    LOG.append(["S", name, p])
+                    if p.startswith(top + os.sep):
+                        e = _inject(name)
+                        if e:
+                            LOG[-1].append("fault:" + _errno.errorcode.get(e, str(e)))
+                            raise OSError(e, "C54 injected fault", p)
+            return orig(path, *a, **k)
+
+        probe.__name__ = name
+        setattr(os, name, probe)
+
+    for n in PROBES:
+        wrap(n)
 
 
 def _mutating(event, args):
@@ -109,12 +152,17 @@ def _hook(event, args):
             block = True
         elif _mutating(event, args):
             block = any(not (p == top or p.startswith(top + os.sep)) for p in paths)
-        LOG.append(["E", event, paths, raw, block])
+        fault = 0
+        if not block and all(p.startswith(top + os.sep) for p in paths):
+            fault = _inject(event)
+        LOG.append(["E", event, paths, raw, block if not fault else "fault:%d" % fault])
     except Exception as e:  # the guard fails closed
         LOG.append(["E", "hook-error", [], [repr(e)], True])
         raise PermissionError("C54 guard: hook error, operation refused")
     if block:
         raise PermissionError("C54 guard: %s outside the scratch area refused" % event)
+    if fault:
+        raise OSError(fault, "C54 injected fault", paths[0])
 
 
 def drop_privileges():
@@ -164,6 +212,7 @@ def main():
     cfg = json.loads(sys.argv[1])
     TOP[0] = cfg["top"]
     sys.addaudithook(_hook)
+    install_probe_wrappers()  # before twisted is imported: filepath.py binds `from os import stat ...`
     rname = cfg["reactor"]
     if rname == "select":
         from twisted.internet import selectreactor as m
@@ -247,8 +296,24 @@ def main():
     p = portal.Portal(Realm(), [db, checkers.AllowAnonymousAccess()])
     stop = ("XSTOP " + cfg["token"]).encode("ascii")
 
+    import errno
+    conn_ids = iter(range(1, 10 ** 9))
+
     class RecordedFTP(ftp.FTP):
+        def connectionMade(self):
+            self.c54_id = next(conn_ids)
+            return ftp.FTP.connectionMade(self)
+
         def lineReceived(self, line):
+            if line.startswith(b"XFAULT "):  # harness control line: "XFAULT <k> <ERRNO NAME> [call]", never reaches twisted
+                LOG.append(["L", self.c54_id, line.decode("latin-1")])
+                try:
+                    parts = line.decode("ascii").split()
+                    FAULT[0], FAULT[1], FAULT[2], FAULT[3] = int(parts[1]), getattr(errno, parts[2]), True, (parts + [""])[3]
+                    self.transport.write(b"299 fault armed\r\n")
+                except Exception:
+                    self.transport.write(b"599 bad XFAULT\r\n")
+                return
             if line == stop:
                 ARMED[0] = False
                 with open(cfg["out"], "w") as f:
@@ -258,7 +323,11 @@ def main():
                 self.transport.loseConnection()
                 reactor.callLater(0, reactor.stop)
                 return
-            LOG.append(["L", line.decode("latin-1")])
+            if FAULT[2]:
+                FAULT[2] = False  # the plan armed by the preceding XFAULT covers this command only
+            else:
+                FAULT[0] = 0
+            LOG.append(["L", self.c54_id, line.decode("latin-1")])
             return ftp.FTP.lineReceived(self, line)
 
     factory = ftp.FTPFactory(p)
